@@ -54,3 +54,208 @@ theorem joinKey_injective (a b : List (List Char)) (hlen : a.length = b.length)
           rw [h1, this]
 
 end Gorm
+
+namespace Gorm
+
+/-! ### `GetIdentityFieldValuesMap` -/
+
+theorem find_map_fst (g : List (List Char × List Nat)) (f : List Char × List Nat → List Char × List Nat)
+    (hf : ∀ x, (f x).1 = x.1) (s : List Char) :
+    (g.map f).find? (fun x => x.1 == s) = (g.find? (fun x => x.1 == s)).map f := by
+  induction g with
+  | nil => rfl
+  | cons x xs ih =>
+    simp only [List.map_cons, List.find?_cons, hf]
+    cases h : (x.1 == s) <;> simp [ih]
+
+theorem hasKey_false_find (m : IdMap) (s : List Char) (h : m.hasKey s = false) :
+    m.groups.find? (fun g => g.1 == s) = none := by
+  unfold IdMap.hasKey at h
+  rw [List.find?_eq_none]
+  intro x hx hxs
+  have : m.groups.any (fun g => g.1 == s) = true := List.any_eq_true.mpr ⟨x, hx, hxs⟩
+  rw [h] at this; cases this
+
+theorem lookup_insert (m : IdMap) (s s' : List Char) (a : Nat) (v : List KeyVal) :
+    (m.insert s a v).lookup s' = if s' = s then m.lookup s ++ [a] else m.lookup s' := by
+  unfold IdMap.insert
+  by_cases hk : m.hasKey s = true
+  · simp only [hk, if_true, IdMap.lookup]
+    rw [find_map_fst _ _ (by intro x; by_cases hx : (x.1 == s) = true <;> simp [hx])]
+    by_cases hs : s' = s
+    · subst hs
+      simp only [if_true]
+      cases hfd : m.groups.find? (fun g => g.1 == s') with
+      | none =>
+        exfalso
+        unfold IdMap.hasKey at hk
+        obtain ⟨x, hx, hxs⟩ := List.any_eq_true.mp hk
+        have := List.find?_eq_none.mp hfd x hx
+        exact this hxs
+      | some g =>
+        have hg : g.1 = s' := by
+          have := List.find?_some hfd
+          simpa using this
+        simp [hg]
+    · simp only [hs, if_false]
+      cases hfd : m.groups.find? (fun g => g.1 == s') with
+      | none => simp
+      | some g =>
+        have hg : (g.1 == s') = true := by
+          have := List.find?_some hfd
+          simpa using this
+        have hg' : g.1 = s' := by simpa using hg
+        have hne : ¬ g.1 = s := by
+          intro h; exact hs (hg'.symm.trans h)
+        simp [hne]
+  · have hk' : m.hasKey s = false := by simpa using hk
+    have hnone := hasKey_false_find m s hk'
+    simp only [hk', Bool.false_eq_true, if_false, IdMap.lookup]
+    rw [List.find?_append]
+    by_cases hs : s' = s
+    · subst hs
+      simp [hnone]
+    · have hne : (s == s') = false := by
+        simp only [beq_eq_false_iff_ne, ne_eq]; intro h; exact hs h.symm
+      simp only [hs, if_false]
+      cases hfd : m.groups.find? (fun g => g.1 == s') with
+      | none => simp [hne]
+      | some g => simp
+
+theorem mem_lookup_insert (m : IdMap) (s s' : List Char) (a a' : Nat) (v : List KeyVal) :
+    a' ∈ (m.insert s a v).lookup s' ↔ (a' ∈ m.lookup s' ∨ (s' = s ∧ a' = a)) := by
+  rw [lookup_insert]
+  by_cases hs : s' = s
+  · subst hs; simp
+  · simp [hs]
+
+/-- invariant tying `results` to `dataResults`: one value tuple per key string, in the same order -/
+def IdMap.Aligned (m : IdMap) : Prop := m.values.map toStringKey = m.groups.map (·.1)
+
+theorem aligned_insert (m : IdMap) (v : List KeyVal) (a : Nat) (h : m.Aligned) :
+    (m.insert (toStringKey v) a v).Aligned := by
+  unfold IdMap.insert IdMap.Aligned at *
+  by_cases hk : m.hasKey (toStringKey v) = true
+  · simp only [hk, if_true, List.map_map]
+    rw [h]
+    apply List.map_congr_left
+    intro x _
+    by_cases hx : x.1 = toStringKey v <;> simp [hx]
+  · simp [hk, h]
+
+theorem foldl_idStep_inv (P : IdState → Prop) (all : List IdRow)
+    (hstep : ∀ st r, r ∈ all → P st → P (idStep st r)) :
+    ∀ (rows : List IdRow) (st : IdState), (∀ r ∈ rows, r ∈ all) → P st → P (rows.foldl idStep st) := by
+  intro rows
+  induction rows with
+  | nil => intro st _ h; exact h
+  | cons r rs ih =>
+    intro st hsub h
+    simp only [List.foldl_cons]
+    exact ih _ (fun x hx => hsub x (List.mem_cons_of_mem _ hx)) (hstep st r (hsub r (by simp)) h)
+
+theorem idStep_cases (st : IdState) (r : IdRow) :
+    (r.addr ∈ st.loaded ∧ idStep st r = st) ∨
+    (r.addr ∉ st.loaded ∧ allZero r.key = true ∧ idStep st r = { st with loaded := r.addr :: st.loaded }) ∨
+    (r.addr ∉ st.loaded ∧ allZero r.key = false ∧
+      idStep st r = { loaded := r.addr :: st.loaded, map := st.map.insert r.keyStr r.addr r.vals }) := by
+  unfold idStep
+  by_cases hl : r.addr ∈ st.loaded
+  · left; simp [hl]
+  · right
+    by_cases hz : allZero r.key = true
+    · left; simp [hl, hz]
+    · right
+      have hz' : allZero r.key = false := by simpa using hz
+      simp [hl, hz']
+
+theorem idStep_loaded_mono (st : IdState) (r : IdRow) (a : Nat) (h : a ∈ st.loaded) : a ∈ (idStep st r).loaded := by
+  rcases idStep_cases st r with ⟨_, e⟩ | ⟨_, _, e⟩ | ⟨_, _, e⟩ <;> rw [e] <;> simp [h]
+
+theorem idStep_loaded_self (st : IdState) (r : IdRow) : r.addr ∈ (idStep st r).loaded := by
+  rcases idStep_cases st r with ⟨h, e⟩ | ⟨_, _, e⟩ | ⟨_, _, e⟩
+  · rw [e]; exact h
+  · rw [e]; simp
+  · rw [e]; simp
+
+theorem foldl_loaded_mono (rows : List IdRow) (st : IdState) (a : Nat) (h : a ∈ st.loaded) :
+    a ∈ (rows.foldl idStep st).loaded := by
+  induction rows generalizing st with
+  | nil => exact h
+  | cons r rs ih => simp only [List.foldl_cons]; exact ih _ (idStep_loaded_mono st r a h)
+
+theorem foldl_loaded_all (rows : List IdRow) (st : IdState) (r : IdRow) (hr : r ∈ rows) :
+    r.addr ∈ (rows.foldl idStep st).loaded := by
+  induction rows generalizing st with
+  | nil => cases hr
+  | cons x xs ih =>
+    simp only [List.foldl_cons]
+    rcases List.mem_cons.mp hr with h | h
+    · subst h; exact foldl_loaded_mono xs _ _ (idStep_loaded_self st r)
+    · exact ih _ h
+
+def IdSound (all : List IdRow) (st : IdState) : Prop :=
+  ∀ s a, a ∈ st.map.lookup s → ∃ r ∈ all, r.addr = a ∧ allZero r.key = false ∧ r.keyStr = s
+
+theorem idSound_step (all : List IdRow) (st : IdState) (r : IdRow) (hr : r ∈ all) (h : IdSound all st) :
+    IdSound all (idStep st r) := by
+  rcases idStep_cases st r with ⟨_, e⟩ | ⟨_, _, e⟩ | ⟨_, hz, e⟩ <;> rw [e]
+  · exact h
+  · exact h
+  · intro s a ha
+    rcases (mem_lookup_insert _ _ _ _ _ _).mp ha with h1 | ⟨h1, h2⟩
+    · exact h s a h1
+    · exact ⟨r, hr, h2.symm, hz, h1.symm⟩
+
+def IdGood (all : List IdRow) (st : IdState) : Prop :=
+  ∀ r ∈ all, r.addr ∈ st.loaded → allZero r.key = false → r.addr ∈ st.map.lookup r.keyStr
+
+theorem idGood_step (all : List IdRow)
+    (hf : ∀ r r', r ∈ all → r' ∈ all → r.addr = r'.addr → r.key = r'.key)
+    (st : IdState) (r0 : IdRow) (hr0 : r0 ∈ all) (h : IdGood all st) : IdGood all (idStep st r0) := by
+  rcases idStep_cases st r0 with ⟨_, e⟩ | ⟨hl, hz, e⟩ | ⟨hl, hz, e⟩ <;> rw [e]
+  · exact h
+  · intro r hr hld hnz
+    simp only [List.mem_cons] at hld
+    rcases hld with ha | ha
+    · have := hf r r0 hr hr0 ha
+      rw [this, hz] at hnz; cases hnz
+    · exact h r hr ha hnz
+  · intro r hr hld hnz
+    simp only [List.mem_cons] at hld
+    apply (mem_lookup_insert _ _ _ _ _ _).mpr
+    rcases hld with ha | ha
+    · right
+      have hk := hf r r0 hr hr0 ha
+      refine ⟨?_, ha⟩
+      unfold IdRow.keyStr IdRow.vals; rw [hk]
+    · left; exact h r hr ha hnz
+
+def IdVals (all : List IdRow) (st : IdState) : Prop :=
+  st.map.Aligned ∧ ∀ v ∈ st.map.values, ∃ r ∈ all, r.vals = v ∧ allZero r.key = false
+
+theorem idVals_step (all : List IdRow) (st : IdState) (r : IdRow) (hr : r ∈ all) (h : IdVals all st) :
+    IdVals all (idStep st r) := by
+  rcases idStep_cases st r with ⟨_, e⟩ | ⟨_, _, e⟩ | ⟨_, hz, e⟩ <;> rw [e]
+  · exact h
+  · exact h
+  · refine ⟨aligned_insert _ _ _ h.1, ?_⟩
+    intro v hv
+    simp only [IdMap.insert] at hv
+    by_cases hk : st.map.hasKey r.keyStr = true
+    · simp only [hk, if_true] at hv; exact h.2 v hv
+    · simp only [hk, Bool.false_eq_true, if_false, List.mem_append, List.mem_singleton] at hv
+      rcases hv with hv | hv
+      · exact h.2 v hv
+      · exact ⟨r, hr, hv.symm, hz⟩
+
+theorem lookup_mem_groups (m : IdMap) (s : List Char) (a : Nat) (h : a ∈ m.lookup s) : s ∈ m.groups.map (·.1) := by
+  unfold IdMap.lookup at h
+  cases hfd : m.groups.find? (fun g => g.1 == s) with
+  | none => rw [hfd] at h; cases h
+  | some g =>
+    have hg : (g.1 == s) = true := by have := List.find?_some hfd; simpa using this
+    have hg' : g.1 = s := by simpa using hg
+    exact List.mem_map.mpr ⟨g, List.mem_of_find?_eq_some hfd, hg'⟩
+
+end Gorm
